@@ -300,9 +300,7 @@ func negative(tokens []Token, baseUrl string, out *csDescriptors) error {
 	}
 
 	var values []pr.NamedString
-	for len(tokens) != 0 {
-		var token Token
-		token, tokens = tokens[len(tokens)-1], tokens[:len(tokens)-1]
+	for _, token := range tokens {
 		if p, ok := stringIdentOrUrl(token, baseUrl); ok {
 			values = append(values, p)
 		}
